@@ -125,7 +125,7 @@ CHECKS = {
     ),
     "C08": (
         "exploration",
-        "Run-level part: (a) twin runs of one physical scenario stated in two unit systems from {um,nm,mm}x{mT,uT,T}x{uA,nA,mA} on the same dimensionless mesh object: every update's dimensionless output compared (mu up to its additive constant, psi up to a global phase; 1e-8 growing 4x per update, capped 1e-3) and Solution.current_density in A/m compared to 1e-8; (b) absolute SI oracles on every run, so a factor lost in both twins is still seen: the stored dimensionless potential of a uniform field integrates around every mesh triangle to 2 pi flux/Phi_0, the boundary flux density on every terminal equals 4 I/(K0 L), the screening kernel equals (mu_0/4pi) sum K a/r, Solution.current_density equals K0 x site-averaged dimensionless current (CODATA constants from scipy, 1e-7).",
+        "Run-level part: (a) twin runs of one physical scenario stated in two unit systems from {um,nm,mm}x{mT,uT,T}x{uA,nA,mA} on the same dimensionless mesh object: every update's dimensionless output compared (mu up to its additive constant, psi up to a global phase; 1e-8 growing 4x per update, capped 1e-3) and Solution.current_density in A/m compared to 1e-8; (b) absolute SI oracles on every run, so a factor lost in both twins is still seen: the stored dimensionless potential of a uniform field integrates around every mesh triangle to 2 pi flux/Phi_0, the boundary flux density on every terminal equals 4 I/(K0 L), the screening kernel equals (mu_0/4pi) sum K a/r, Solution.current_density equals K0 x site-averaged dimensionless current, Solution.field_at_position in T equals the direct sum over the cells' sheet currents with the film at its height z0 (CODATA constants from scipy, 1e-7).",
         "Post-processing unit conversions (C20) are not covered. Non-zero terminal_psi excluded from twins (the mu constant left to rounding by the singular Neumann solve becomes physical there).",
         "deterministic simulation: unit system as a per-run swarm knob, differential twin runs + absolute SI reference model",
         "DESIGN.md 4/C08", 900, 7200,
@@ -137,7 +137,9 @@ LIFECYCLE_NOTE = (
     " Every Engine-A scenario may also carry seeded object life cycles (DESIGN.md 2.7): a Device that was re-meshed, moved in place,"
     " restored from HDF5, copied / deep-copied / pickled / identity-transformed, or simulated on before; a second solver alive on the"
     " same Device; the same solver solved twice; a SolverOptions object used before or configured attribute by attribute; the"
-    " tdgl.solve() entry point; devices stated in metres (not C08)."
+    " tdgl.solve() entry point; devices stated in metres (not C08); films at a height z0 != 0; and a seeded schedule decision"
+    " 'another simulation runs here': a second solve on the same Device object executed to completion at a seam of the run"
+    " (between steps, before a psi update / screening iteration / operator refresh, around a frame write) - DESIGN.md 2.3."
 )
 
 
